@@ -6,6 +6,7 @@ import core  # noqa: E402
 import genes  # noqa: E402  (kernel II: gene bookkeeping; contexts at specification level, coq/theories/Genes/Ctx.v)
 import ctxmon  # noqa: E402  (specification-level monitor over context-aware operations outside the kernels)
 import groups  # noqa: E402  (kernel III: groups and identifier changes; contexts at specification level, Groups/Ctx.v)
+import extras  # noqa: E402  (kernel IV: user constraints / variables, solver switch, merge; coq/theories/Extras)
 
 if __name__ == "__main__":
     sys.exit(core.main(
@@ -23,5 +24,7 @@ if __name__ == "__main__":
                           "the comparison of the real objects at __enter__ and after __exit__ is the Coq function "
                           "`restored` of Genes/Check.v evaluated on the harness's observations",
                           "groups kernel: likewise at specification level (Groups/Ctx.v); `restored` / `groups_restored` of "
-                          "Groups/Check.v compare the observations at __enter__ and after __exit__"],
-        extra=[genes.run_ctx, groups.run_ctx, ctxmon.run], extra_targets=genes.EXTRA_TARGETS + groups.EXTRA_TARGETS))
+                          "Groups/Check.v compare the observations at __enter__ and after __exit__",
+                          "extras kernel: likewise at specification level (Extras/Ctx.v); `restored` of Extras/Check.v"],
+        extra=[genes.run_ctx, groups.run_ctx, extras.run_ctx, ctxmon.run],
+        extra_targets=genes.EXTRA_TARGETS + groups.EXTRA_TARGETS + extras.EXTRA_TARGETS))
